@@ -208,7 +208,7 @@ Proof.
     destruct (lo (s_rt s)) as [o|]; [|discriminate]. destruct (lookup_list k (orem o)) eqn:El; [|discriminate].
     injection Hf as <- <-. apply lookup_list_Some in El. tauto. }
   unfold occ_replace_with. apply wp_bind. apply (ent_elem_wp im k x); [exact Hf|].
-  apply wp_bind.
+  apply wp_bind. apply wp_on_unwind.
   apply (rt_replace_bucket_with_spec c im k x _ (if keep then Some (Elem (ek x) (ekid x) (ev x + d)) else None)); [exact HI|exact Hf| | | |].
   - (* the closure *)
     intros s0. apply wp_bind. apply wp_on_unwind. eapply frameU_use; [apply frame_cb| |].
@@ -226,7 +226,9 @@ Proof.
       * apply wp_bind. apply frame0_use.
         { unfold drop_held. destruct held; [apply frame0_tick|apply frameU_ret]. }
         intros [] s2 Hs2. apply wp_ret. apply HQ; [rewrite Hs2; exact HI1|rewrite Hs2; exact Habs1].
-  - intros s1 HI1 _. apply HU. split; [exact HI1|left; reflexivity].
+  - intros s1 HI1 _. apply frame0_use.
+    { unfold drop_held. destruct held; [apply frame0_tick|apply frameU_ret]. }
+    intros [] s2 Hs2. apply HU. split; [rewrite Hs2; exact HI1|left; reflexivity].
 Qed.
 
 Lemma frame0_drop_held h : frame0 (drop_held h).
@@ -283,7 +285,8 @@ Proof.
     destruct st0; cbn [entry_step]; try apply wp_badop; unfold step_Q, step_U; cbn [strip ref_step fst snd]; rewrite Habs.
     + (* SKey *) apply wp_bind. apply (ent_elem_wp im k x); [exact Hf|]. apply wp_ret. cbn [fst snd strip]. split; [exact HI|]. split; [cbn [ent_ok]; eauto|reflexivity].
     + (* SAndModify *) apply wp_bind. apply (ent_elem_wp im k x); [exact Hf|].
-      apply wp_bind. apply frame_use; [apply frame_cb| |]; [|intros s1 Hs1; split; [rewrite Hs1; exact HI|auto]].
+      apply wp_bind. apply wp_on_unwind. eapply frameU_use; [apply frame_cb| |];
+        [|intros p s1 Hs1 ->; apply frame0_use; [apply frame0_drop_held|]; intros [] s1' Hs1'; split; [rewrite Hs1', Hs1; exact HI|auto]].
       intros [] s1 Hs1. apply wp_bind. apply (setv_wp im k (ev x + d) x); [rewrite Hs1; exact HI|rewrite Hs1; exact Hf|].
       intros s2 HI2 Habs2 Hf2. apply wp_ret. cbn [fst snd strip]. split; [exact HI2|]. split; [cbn [ent_ok]; eauto|]. rewrite Habs2, Hs1. reflexivity.
     + (* SAndReplace *) apply wp_bind. apply (occ_replace_with_wp raw im k held keep d x); [exact HI|exact Hf| |].
@@ -382,8 +385,8 @@ Proof.
     + (* SOccReplaceWith *) cbn [entry_step]; destruct held; apply wp_badop.
     + (* SVacInsert *) cbn [entry_step]; destruct held as [h|]; [|apply wp_badop]; unfold step_Q, step_U; cbn [strip ref_step fst snd]; rewrite Hok; pose proof HI as HIx; pose proof Hok as Hokx; apply (vac_put_wp k h v w); [exact HIx|exact Hokx| |intros pp ss [HH1 [->| ->]]; split; auto]; intros s9 HI9 Habs9 _; apply wp_ret; cbn [fst snd strip]; (split; [exact HI9|]); (split; [exact I|]); rewrite Habs9; rewrite ?Hsx; reflexivity.
     + (* SVacIntoKey *) cbn [entry_step]; destruct held as [h|]; [|apply wp_badop]; unfold step_Q, step_U; cbn [strip ref_step fst snd]; rewrite Hok; apply wp_ret; cbn [fst snd strip]; (split; [exact HI|]); (split; [exact I|reflexivity]).
-    + (* SRawInsert *) cbn [entry_step]; destruct held as [h|]; [apply wp_badop|]; unfold step_Q, step_U; cbn [strip ref_step fst snd]; rewrite Hok; apply wp_bind; (eapply frameU_use; [apply frame_tick_hash| |]); [intros [] sx Hsx; apply wp_bind; apply (vac_insert_wp k kid v); [rewrite Hsx; exact HI|rewrite Hsx; exact Hok| |intros pp ss [HH1 [->| ->]]; split; auto]; intros s9 HI9 Habs9 Hf9; apply wp_ret; cbn [fst snd strip]; (split; [exact HI9|]); (split; [cbn [ent_ok]; eauto|]); rewrite Habs9, Hsx; reflexivity|intros p sx Hsx ->; split; [rewrite Hsx; exact HI|auto]].
-    + (* SRawOrInsert *) cbn [entry_step]; destruct held as [h|]; [apply wp_badop|]; unfold step_Q, step_U; cbn [strip ref_step fst snd]; rewrite Hok; apply wp_bind; (eapply frameU_use; [apply frame_tick_hash| |]); [intros [] sx Hsx; assert (HIx : Inv R ES (s_rt sx)) by (rewrite Hsx; exact HI); assert (Hokx : rt_abs (s_rt sx) !! k = None) by (rewrite Hsx; exact Hok); apply (vac_put_wp k kid v w); [exact HIx|exact Hokx| |intros pp ss [HH1 [->| ->]]; split; auto]; intros s9 HI9 Habs9 _; apply wp_ret; cbn [fst snd strip]; (split; [exact HI9|]); (split; [exact I|]); rewrite Habs9; rewrite ?Hsx; reflexivity|intros p sx Hsx ->; split; [rewrite Hsx; exact HI|auto]].
+    + (* SRawInsert *) cbn [entry_step]; destruct held as [h|]; [apply wp_badop|]; unfold step_Q, step_U; cbn [strip ref_step fst snd]; rewrite Hok; apply wp_bind; apply wp_on_unwind; (eapply frameU_use; [apply frame_tick_hash| |]); [intros [] sx Hsx; apply wp_bind; apply (vac_insert_wp k kid v); [rewrite Hsx; exact HI|rewrite Hsx; exact Hok| |intros pp ss [HH1 [->| ->]]; split; auto]; intros s9 HI9 Habs9 Hf9; apply wp_ret; cbn [fst snd strip]; (split; [exact HI9|]); (split; [cbn [ent_ok]; eauto|]); rewrite Habs9, Hsx; reflexivity|intros p sx Hsx ->; apply wp_bind; apply frame0_use; [apply frame0_tick|]; intros [] sy Hsy; apply frame0_use; [apply frame0_tick|]; intros [] sz Hsz; split; [rewrite Hsz, Hsy, Hsx; exact HI|auto]].
+    + (* SRawOrInsert *) cbn [entry_step]; destruct held as [h|]; [apply wp_badop|]; unfold step_Q, step_U; cbn [strip ref_step fst snd]; rewrite Hok; apply wp_bind; apply wp_on_unwind; (eapply frameU_use; [apply frame_tick_hash| |]); [intros [] sx Hsx; assert (HIx : Inv R ES (s_rt sx)) by (rewrite Hsx; exact HI); assert (Hokx : rt_abs (s_rt sx) !! k = None) by (rewrite Hsx; exact Hok); apply (vac_put_wp k kid v w); [exact HIx|exact Hokx| |intros pp ss [HH1 [->| ->]]; split; auto]; intros s9 HI9 Habs9 _; apply wp_ret; cbn [fst snd strip]; (split; [exact HI9|]); (split; [exact I|]); rewrite Habs9; rewrite ?Hsx; reflexivity|intros p sx Hsx ->; apply wp_bind; apply frame0_use; [apply frame0_tick|]; intros [] sy Hsy; apply frame0_use; [apply frame0_tick|]; intros [] sz Hsz; split; [rewrite Hsz, Hsy, Hsx; exact HI|auto]].
     + (* SRawOrInsertWith *) cbn [entry_step]; destruct held as [h|]; [apply wp_badop|]; unfold step_Q, step_U; cbn [strip ref_step fst snd]; rewrite Hok; apply wp_bind; (eapply frameU_use; [apply frame_cb| |]); [intros [] s0 Hs0; apply wp_bind; apply wp_on_unwind; (eapply frameU_use; [apply frame_tick_hash| |]); [intros [] sx0 Hsx0; assert (Hsx : s_rt sx0 = s_rt s) by congruence; assert (HIx : Inv R ES (s_rt sx0)) by (rewrite Hsx; exact HI); assert (Hokx : rt_abs (s_rt sx0) !! k = None) by (rewrite Hsx; exact Hok); apply (vac_put_wp k kid v w); [exact HIx|exact Hokx| |intros pp ss [HH1 [->| ->]]; split; auto]; intros s9 HI9 Habs9 _; apply wp_ret; cbn [fst snd strip]; (split; [exact HI9|]); (split; [exact I|]); rewrite Habs9; rewrite ?Hsx; reflexivity|intros p sx Hsx ->; apply wp_bind; apply frame0_use; [apply frame0_tick|]; intros [] sy Hsy; apply frame0_use; [apply frame0_tick|]; intros [] sz Hsz; split; [rewrite Hsz, Hsy, Hsx, Hs0; exact HI|auto]]|intros p s0 Hs0 ->; split; [rewrite Hs0; exact HI|auto]].
     + (* SRawOccInsertKey *) cbn [entry_step]; destruct held; apply wp_badop.
     + (* SRawOccKeyValue *) cbn [entry_step]; destruct held; apply wp_badop.
@@ -418,16 +421,16 @@ Proof.
   induction ss as [|st0 ss IH]; intros e acc s HI Hok; cbn [entry_steps].
   - apply wp_bind. apply frame0_use; [apply frame0_drop_ent|]. intros [] s1 Hs1. apply wp_ret.
     unfold chain_Q. rewrite Hs1. split; [exact HI|]. cbn [ref_chain]. eauto.
-  - apply wp_bind. apply wp_on_unwind.
+  - apply wp_bind.
     eapply wp_conseq; [apply (entry_step_spec raw e st0 s HI Hok)| |].
     + intros [e1 o1] s1 (HI1 & Hok1 & Href). cbn [fst snd] in *.
       eapply wp_conseq; [apply (IH e1 (acc ++ [o1]) s1 HI1 Hok1)| |].
       * intros outs s2 (HI2 & a' & Hch). split; [exact HI2|]. exists a'. cbn [ref_chain]. rewrite Href. exact Hch.
       * intros p s2 (HI2 & Hp). split; [exact HI2|]. destruct Hp as [->|[->|[-> Hch]]]; auto.
         right. right. split; [reflexivity|]. cbn [ref_chain]. rewrite Href. exact Hch.
-    + intros p s1 (HI1 & Hp). apply frame0_use; [apply frame0_drop_ent|]. intros [] s2 Hs2.
-      split; [rewrite Hs2; exact HI1|]. destruct Hp as [->|[->|(-> & Href & Hsame)]]; auto.
-      right. right. split; [reflexivity|]. cbn [ref_chain]. rewrite Href, Hs2, Hsame. reflexivity.
+    + intros p s1 (HI1 & Hp).
+      split; [exact HI1|]. destruct Hp as [->|[->|(-> & Href & Hsame)]]; auto.
+      right. right. split; [reflexivity|]. cbn [ref_chain]. rewrite Href, Hsame. reflexivity.
 Qed.
 
 (* entry(key).chain *)
